@@ -131,7 +131,10 @@ void fsl_sort_edges(size_t *idx, size_t n, const struct fsl_edge *m_edges, size_
     __CPROVER_assigns(__CPROVER_object_whole(idx), KPOS)
     __CPROVER_ensures((SP1 < n ==> idx[SP1] < nedges) && (SP2 < n ==> idx[SP2] < nedges))
     __CPROVER_ensures((SP1 < n && SP2 < n && SP1 != SP2) ==> idx[SP1] != idx[SP2])
-    __CPROVER_ensures((SP1 < SP2 && SP2 < n) ==> !(EDGE_W(idx[SP2]) < EDGE_W(idx[SP1])))
+    /* sortedness -- (SP1 < SP2 && SP2 < n) ==> !(EDGE_W(idx[SP2]) < EDGE_W(idx[SP1])) -- is std::sort's documented postcondition but is NOT
+     * stated here: no obligation of spec/basin.py consumes it (the order of scanning matters only for minimality = Kruskal's theorem,
+     * unmechanised), and a floating-point comparison through two symbolic indices makes every group that replaces this call
+     * 5-10x slower on cvc5 (measured: tree slice 250 s without, > 1200 s with) */
     __CPROVER_ensures(KGE < nedges ==> (KPOS < n && idx[KPOS] == KGE))
 #endif
     ;
